@@ -34,11 +34,12 @@ RULE = ("a case is one history: optional generation padding (empty commits so th
         "once under the storage tap and EVERY storage event boundary is a crash point. A history is non-trivial when "
         "at least one committed transaction showed both outcomes (old before / new after the TOC rename); distinct = "
         "distinct (theme, per-transaction (commit kind, finish, compound, front-end, op kinds, segments before)). "
-        "Every third history ends with one transaction through a convenience method of the index object (FileIndex.optimize / "
-        "add_field / remove_field open and commit their own writers). Every fourth history has a SECOND index under another "
+        "Every fourth history has a SECOND index under another "
         "name ('other' / 'MAIN2', storage.create_index(indexname=...), compound or loose) in the same directory: its files "
         "(byte checksums) and its logical dump are part of every observation, before and after the fresh commit. "
         "MULTI-PROCESS histories (theme 'mp'; first case of every shard, thorough: two per shard): 1-3 prelude commits, then "
+        "one transaction through a convenience method of the index object (FileIndex.optimize / add_field / remove_field "
+        "open and commit their own writers; crash-enumerated like every single-process transaction), then "
         "2 (thorough 2-4) transactions through whoosh.multiproc.MpWriter(procs 2 (thorough 2-3), batchsize 1-2) x {merged, "
         "multisegment=True} x {commit default/merge=False/optimize, cancel} x {compound, loose} x {tiny limitmb}, 3-4 (thorough "
         "3-7) added documents + sometimes one delete/update of an earlier document. The PARENT process is tapped; the forked "
@@ -490,24 +491,6 @@ def gen_history(rng, idx, tier):
             tx = g.tx(model, fs, front="segment", finish=rng.choice(["cancel", "exception"]))
         else:
             tx = g.tx(model, fs, front=front)
-        txs.append(tx)
-        model, fs = model_apply(model, fs, tx)
-    if idx % 3 == 1:
-        # one more transaction through a convenience method of the index object (own generator: the transactions above stay
-        # what they were before these existed)
-        xr = random.Random("c02-ixmethod:%d" % idx)
-        which = ["optimize", "add_field", "remove_field"][(idx // 3) % 3]
-        removable = sorted(f for f in fs if f.startswith("x") or f == "k")
-        if which == "remove_field" and not removable:
-            which = "add_field"
-        if which == "optimize":
-            tx = {"ops": [], "commit": "optimize", "finish": "commit", "compound": xr.random() < 0.5, "front": "ixmethod"}
-        elif which == "add_field":
-            tx = {"ops": [["add_field", "xm%d" % idx, xr.choice(["kw", "text"])]], "commit": "default", "finish": "commit",
-                  "compound": True, "front": "ixmethod"}
-        else:
-            tx = {"ops": [["remove_field", xr.choice(removable)]], "commit": "default", "finish": "commit",
-                  "compound": True, "front": "ixmethod"}
         txs.append(tx)
         model, fs = model_apply(model, fs, tx)
     create_monitored = (idx % 3 == 0)
@@ -986,6 +969,18 @@ def gen_mp_history(rng, k, tier):
         model, fs = model_apply(model, fs, tx)
     ntx = 2 if tier == "quick" else rng.randint(2, 4)
     txs = []
+    # first monitored transaction: a convenience method of the index object (FileIndex.optimize / add_field / remove_field
+    # open and commit their own writers)
+    which = ["optimize", "add_field", "remove_field", "add_field"][k % 4]
+    if which == "optimize":
+        tx = {"ops": [], "commit": "optimize", "finish": "commit", "compound": rng.random() < 0.5, "front": "ixmethod"}
+    elif which == "add_field":
+        tx = {"ops": [["add_field", "x-m%d" % k if k % 8 >= 4 else "xm%d" % k, rng.choice(["kw", "text"])]],
+              "commit": "default", "finish": "commit", "compound": True, "front": "ixmethod"}
+    else:
+        tx = {"ops": [["remove_field", "k"]], "commit": "default", "finish": "commit", "compound": True, "front": "ixmethod"}
+    txs.append(tx)
+    model, fs = model_apply(model, fs, tx)
     for j in range(ntx):
         multiseg = bool((k + j) % 2)
         if j == 0:
@@ -1005,7 +1000,10 @@ def gen_mp_history(rng, k, tier):
             touched.add(key)
             op = ["del", key] if rng.random() < 0.5 else ["upd", g.doc(key, fs)]
             ops.insert(rng.randrange(len(ops) + 1), op)
-        tx = {"ops": ops, "commit": rng.choice(["default", "nomerge", "nomerge", "optimize"]), "finish": finish,
+        ckind = rng.choice(["default", "nomerge", "nomerge", "optimize"])
+        if tier == "quick" and j == 0:
+            ckind = "nomerge"       # (keeps the first, guaranteed, transaction of the quick tier small)
+        tx = {"ops": ops, "commit": ckind, "finish": finish,
               "compound": ((k // 2 + j) % 2 == 0) if j < 2 else (rng.random() < 0.6), "front": "mp", "multiseg": multiseg,
               "procs": 2 if tier == "quick" else rng.choice([2, 2, 3]), "batch": rng.choice([1, 1, 2])}
         if rng.random() < 0.35:
